@@ -1089,3 +1089,48 @@ def rf87(run):
                           % (nm, bad[0], bad[-1], 32 if nm.endswith('S') else 64, 'signed' if nm in ('MIR_DIV', 'MIR_DIVS') else 'unsigned',
                              'zero' if bad[0] >= (32 if nm.endswith('S') else 64) else 'negative'), line=exits[0]['l'])
     return n
+
+
+# ---------------------------------------------------------------------------------------------
+# RF100: lowering of a memory result never puts arithmetic between an overflow producer and its branch
+# ---------------------------------------------------------------------------------------------
+
+def rf100(run):
+    rule = 'RF100'
+    run.rule(rule, 'simplify_op lowers a memory operand `T:disp(base, index, scale)` to a base-only one with MOV / MUL / ADD instructions.  '
+                   'For a memory *result* of a non-move instruction they are inserted after the instruction (after_p) - except, by '
+                   'evaluation of that flag over all opcodes, for the overflow-flag producers: MIR allows only moves and stores between '
+                   'a producer and its BO/BNO/UBO/UBNO, and x86 ADD / IMUL overwrite the flags')
+    tu = run.tu('mir')
+    f = tu.func('simplify_op')
+    run.functions_analysed.add(('mir', f.name))
+    preds = EF.Predicates(tu)
+    uni = frozenset(v for nm, v in tu.enum('MIR_insn_code_t'))
+    ovf = preds.true_set('MIR_overflow_insn_code_p', uni)
+    names = {}
+    for nm, v in tu.enum('MIR_insn_code_t'):
+        names.setdefault(v, nm)
+    decl = None
+    for x in f.walk():
+        if x['k'] == 'DeclStmt':
+            for d in x['decls']:
+                if d['n'] == 'after_p' and d.get('init') is not None:
+                    decl = d
+    if decl is None:
+        raise F.AnalysisBroken('simplify_op: the placement flag after_p was not found')
+    n = 0
+    bad = []
+    for v in sorted(ovf):
+        r = preds.eval(decl['init'], {'move_p': 0, 'out_p': 1, 'code': v}, frozenset())
+        if r is None:
+            raise F.AnalysisBroken('simplify_op: after_p not evaluable for %s' % names[v])
+        n += 1
+        ok = not r
+        run.ob(rule, (names[v],), ok, {'opcode': names[v], 'address instructions placed after it': bool(r)} if n % 3 == 1 or not ok else None)
+        if not ok:
+            bad.append(names[v])
+    if bad:
+        run.violation(rule, f, 'address arithmetic behind %s' % '/'.join(bad[:3]), 'for a memory result of %s simplify_op inserts the address '
+                      'computation (mov / mul / add) after the instruction: `addo i64:8(p), a, b; bo L` becomes addo; mov; add; mov; bo and '
+                      'the generated add overwrites the overflow flag the branch tests' % '/'.join(bad), line=decl['init']['l'])
+    return n
